@@ -115,12 +115,29 @@ Fixpoint cone_fuel (g : list tnode) (k : nat) (ts : list nat) : list nat :=
   end.
 Definition cone (g : list tnode) (roots : list nat) : list nat := cone_fuel g (length g) roots.
 
+(* the part of the cone an evaluation has certainly traversed: the phases of its
+   roots and, below a task, the phases of its dependencies as long as the task is
+   INIT (a task that is INIT has always been INIT; Enqueue descends through it) *)
+Fixpoint cone_init_fuel (g : list tnode) (w : nat -> tstate) (k : nat) (ts : list nat) : list nat :=
+  match k with
+  | O => []
+  | S k' =>
+      let ph := flat_map (phase g) ts in
+      ph ++ cone_init_fuel g w k'
+              (flat_map (fun u => tdeps (node g u)) (filter (fun u => st_eqb (w u) TInit) ph))
+  end.
+Definition cone_init (g : list tnode) (w : nat -> tstate) (roots : list nat) : list nat :=
+  cone_init_fuel g w (S (length g)) roots.
+Definition depends_on (g : list tnode) (u d : nat) : bool :=
+  existsb (fun dh => mem d (phase g dh)) (tdeps (node g u)).
+
 Definition max_lost : nat := Z.to_nat max_consecutive_lost.
 
 Record chk := mkChk {
   cw : nat -> tstate;         (* observed task states at the last quiescent point *)
   cout : list nat;            (* tasks handed to the executor whose run has not ended *)
   cstreak : nat -> nat;       (* consecutive losses of runs handed out by the evaluation(s) *)
+  clost : list nat;           (* handed-out runs that ended LOST, not handed out again yet *)
   cstarted : list nat;        (* evaluations started *)
   cres : list nat             (* their results at the last quiescent point *)
 }.
@@ -137,6 +154,10 @@ Definition step_ok (g : list tnode) (rootss : list (list nat)) (c : chk) (l : la
   let res_after (e : nat) := nth e (ores o) 0 in
   let all_running_before := forallb (fun e => Nat.eqb (res_before e) 0) (cstarted c) in
   let some_new_error := existsb (fun e => Nat.eqb (res_before e) 0 && Nat.eqb (res_after e) 2) (seq 0 ne) in
+  (* the evaluations that were live before the step and have certainly traversed task t *)
+  let live_cones (w : nat -> tstate) : list (nat * list nat) :=
+    map (fun e => (e, cone_init g w (nth e rootss [])))
+        (filter (fun e => Nat.eqb (res_before e) 0) (cstarted c)) in
   (* the event ends a run we handed out? *)
   let ended := match l with LSet t s => if mem t (cout c) && is_final s then Some (t, s) else None | _ => None end in
   let streak := match ended with
@@ -164,16 +185,36 @@ Definition step_ok (g : list tnode) (rootss : list (list nat)) (c : chk) (l : la
     (* 7: lost max times in a row: error; otherwise resubmitted (as soon as its dependencies are there) *)
     match ended with
     | Some (t, TLost) =>
-        negb all_running_before
-        || (if Nat.leb max_lost (streak t) then some_new_error
-            else negb (all_ok g pre t) || mem t runs)
+        (if Nat.leb max_lost (streak t)
+         then (* the task is in ERR, was not handed out again, every evaluation awaiting it failed *)
+              let on_t := filter (fun p => mem t (snd p)) (live_cones (cw c)) in
+              (negb all_running_before || some_new_error)
+              && forallb (fun p => Nat.eqb (res_after (fst p)) 2) on_t
+              && (is_nil on_t || (st_eqb (post t) TErr && negb (mem t runs)))
+         else negb all_running_before || negb (all_ok g pre t) || mem t runs)
+    | _ => true
+    end;
+    (* 9: work released by the completion of a handed-out task starts at once: a task
+          that depends on the task that has just completed, now has all its dependencies
+          OK, and is INIT and certainly traversed by a live evaluation (or LOST from a run
+          these evaluations handed out) is handed out in the same step *)
+    match ended with
+    | Some (d, TOk) =>
+        let cones := live_cones pre in
+        forallb (fun u => negb (depends_on g u d && all_ok g pre u
+                                && ((st_eqb (pre u) TInit && existsb (fun p => mem u (snd p)) cones)
+                                    (* ... or LOST from a run we handed out (so Return re-enqueued it) *)
+                                    || (st_eqb (pre u) TLost && mem u (clost c) && all_running_before)))
+                          || mem u runs) (ids g)
     | _ => true
     end;
     (* 8: never idle with work outstanding *)
     forallb (fun e => negb (Nat.eqb (res_after e) 0)
                       || existsb (fun t => handed (post t)) (cone g (nth e rootss [])))
             started ] in
-  (checks, mkChk post (fold_left (fun a r => set_add r a) runs out1) streak started (ores o)).
+  let lost1 := match ended with Some (t, TLost) => set_add t (clost c) | _ => clost c end in
+  (checks, mkChk post (fold_left (fun a r => set_add r a) runs out1) streak
+                 (fold_left (fun a r => set_rm r a) runs lost1) started (ores o)).
 
 Fixpoint eval_ok (g : list tnode) (rootss : list (list nat)) (c : chk) (steps : list (label * obs)) : bool :=
   match steps with
@@ -219,14 +260,14 @@ Definition case_ok (c : case) : bool :=
   | CSync g init steps =>
       sync_ok g (mkDump [] [] true false [] [] (map (fun _ => None) g) init) steps
   | CEval g init rootss steps =>
-      eval_ok g rootss (mkChk (st_of init) [] (fun _ => 0) [] (map (fun _ => 0) rootss)) steps
+      eval_ok g rootss (mkChk (st_of init) [] (fun _ => 0) [] [] (map (fun _ => 0) rootss)) steps
   | CPanic => false
   end.
 
 Definition case_why (c : case) : list (nat * nat) :=
   match c with
   | CEval g init rootss steps =>
-      eval_why g rootss (mkChk (st_of init) [] (fun _ => 0) [] (map (fun _ => 0) rootss)) 0 steps
+      eval_why g rootss (mkChk (st_of init) [] (fun _ => 0) [] [] (map (fun _ => 0) rootss)) 0 steps
   | _ => []
   end.
 
